@@ -398,6 +398,56 @@ def generator_kernel(V, accel):
             ("dilations: x in x, y in y", z3.And(L(k.dilation.x) == L(dx), L(k.dilation.y) == L(dy)))]
 
 
+def generator_args(V, accel):
+    """... and every other fact get_arch_block_config hands to try_block_config is the operation's: an elementwise operation whose three feature
+    maps are, independently, fully quantised / without a scale / without quantisation parameters, whose second operand is a tensor or carries a
+    scalar, with or without a lookup-table activation, 8 or 16 bit (forked choices).  Claims on the captured arguments: `scaled` (selects the
+    accumulator format and its SHRAM granule) exactly when ALL of IFM, IFM2 - also a scalar-carrying one - and OFM have a scale; uses_scalar,
+    lut_banks, ifm_bits, the IFM2 shape (absent for a scalar) and the block type as the operation says."""
+    import ethosu.vela.api as api
+    import ethosu.vela.register_command_stream_generator as g
+    import ethosu.vela.register_command_stream_util as u
+    from ethosu.vela.operation import NpuBlockType
+    from harness.c04 import arch_for
+
+    arch = arch_for(accel)
+    modes = ("full", "noscale", "none")
+    qm = {n: V.choice("%s quantisation" % n, modes) for n in ("ifm", "ifm2", "ofm")}
+    scalar = V.choice("second operand", ("tensor", "scalar"))
+    lut = V.choice("lookup-table activation", (False, True))
+    bits = V.choice("bits", (8, 16))
+    op = _mk_op("ew", bits, "full", 1 if lut else 0, 3 if scalar == "scalar" else None, 0, api.NpuBlockTraversal.DEPTH_FIRST)
+    q = {"full": lambda: api.NpuQuantization(scale_f32=0.5, zero_point=0), "noscale": lambda: api.NpuQuantization(scale_f32=None, zero_point=0), "none": lambda: None}
+    op.ifm.quantization, op.ifm2.quantization, op.ofm.quantization = q[qm["ifm"]](), q[qm["ifm2"]](), q[qm["ofm"]]()
+    op.block_config = api.NpuShape3D(4, 8, 16)
+    cap = {}
+
+    def stub(block_config, arch_, *a, **k):
+        names = ["npu_op_type", "ofm_shape", "ifm_shape", "ifm2_shape", "uses_scalar", "ifm_bits", "is_partkernel", "kernel", "lut_banks", "scaled", "ifm_resampling"]
+        cap.update(dict(zip(names, a)))
+        cap.update(k)
+        raise _Stop()
+
+    saved = g.try_block_config
+    g.try_block_config = stub
+    try:
+        try:
+            g.get_arch_block_config(op, api.NpuBlockTraversal.DEPTH_FIRST, arch)
+        except _Stop:
+            pass
+    finally:
+        g.try_block_config = saved
+    if "scaled" not in cap:
+        return [("the generator asks for a layout", False)]
+    want_scaled = all(m == "full" for m in qm.values())
+    return [("scaled == every feature map of the operation (a scalar-carrying IFM2 included) has a quantisation scale [%s]" % ", ".join("%s %s" % kv for kv in sorted(qm.items())),
+             bool(cap["scaled"]) == want_scaled),
+            ("uses_scalar as the operation says", bool(cap["uses_scalar"]) == (scalar == "scalar")),
+            ("IFM2 shape handed over exactly for a tensor operand", (cap["ifm2_shape"] is None) == (scalar == "scalar")),
+            ("two LUT banks exactly with a lookup-table activation", cap["lut_banks"] == (2 if lut else 0)),
+            ("IFM bits", cap["ifm_bits"] == bits), ("block type", cap["npu_op_type"] == NpuBlockType.ElementWise)]
+
+
 def accepts_minimal(V, accel, kind, bits, lut):
     """liveness of the validity check (the `layout` lemma lets try_block_config reject anything): the smallest legal block - one micro-block - is
     accepted for every operation kind, data width and IFM depth; a check that rejected everything would leave the scheduler without any
@@ -420,7 +470,7 @@ def accepts_minimal(V, accel, kind, bits, lut):
     return [("one micro-block is accepted", cfg is not None)]
 
 
-FUNCS = {"generator_kernel": generator_kernel, "accepts_minimal": accepts_minimal, "sched_search": sched_search, "layout": layout, "invalid_rejected": invalid_rejected, "query": query, "search": search}
+FUNCS = {"generator_args": generator_args, "generator_kernel": generator_kernel, "accepts_minimal": accepts_minimal, "sched_search": sched_search, "layout": layout, "invalid_rejected": invalid_rejected, "query": query, "search": search}
 
 
 def instances(tier, seed):
@@ -478,6 +528,7 @@ def instances(tier, seed):
                                     params=dict(accel=accel, kind=kind, lut=lut, oh=oh, ow=ow, od=od)))
         if accel in ("Ethos_U55_128", "Ethos_U65_512"):
             out.append(dict(key="generator_kernel/%s" % accel, fn="generator_kernel", params=dict(accel=accel)))
+            out.append(dict(key="generator_args/%s" % accel, fn="generator_args", params=dict(accel=accel)))
         for which in ("w", "h", "d"):
             out.append(dict(key="invalid_rejected/%s/%s" % (accel, which), fn="invalid_rejected", params=dict(accel=accel, which=which)))
         for kind in ("conv", "dw", "pool", "ew"):
